@@ -4,7 +4,7 @@ Deciding method: Lean order-independence theorems for the pointer-ordered contai
 Det.sameSet_perm_left, Det.attr_cell_order_independent = GA.codeWinner_perm): the machine-class key and grouping and
 the glyph-attribute winner do not depend on iteration order. Tie/exploration: each sampled program (generated families
 and suite programs) is compiled repeatedly under perturbation -- ASLR on/off, MALLOC_PERTURB_, different working
-directory and environment size, LANG/LC_ALL/TZ -- and as k concurrent compilations sharing one directory and /tmp;
+directory and environment size, LANG/LC_ALL/TZ, allocator placement (mmap thresholds; an LD_PRELOAD shim that shuffles heap addresses) -- and as k concurrent compilations sharing one directory and /tmp;
 sha256 of the output font and the diagnostics text must be identical. The schedule quantifier is explored, not proved.
 """
 import collections
@@ -36,14 +36,15 @@ def run(tier, seed, replay=None):
     common.lean_gate(rep, THEOREMS)
     build = common.build_repo("rel")
     work = common.new_workdir("c13")
-    n = 12 if tier == "quick" else 40
+    n = 16 if tier == "quick" else 48
     rng = random.Random(seed * 13 + 13)
     progs = []
     for i in range(n):
         r = random.Random(rng.getrandbits(64))
-        fam = i % 4
+        fam = i % 8
         p = (gen.gen_match_program(r, npasses=3, size="medium") if fam == 0 else gen.gen_class_program(r, size="medium") if fam == 1
-             else gen.gen_gattr_program(r) if fam == 2 else gen.gen_feature_program(r))
+             else gen.gen_gattr_program(r) if fam == 2 else gen.gen_feature_program(r) if fam in (3, 7)
+             else gen.gen_opt_program(r, refs=True, exprs=True) if fam == 4 else gen.gen_attach_program(r) if fam == 5 else gen.gen_expr_program(r))
         progs.append(("g%03d" % i, p, None))
     # rejected programs: the diagnostics (and the absence of a font) must be as reproducible as a font
     import fuzz11
@@ -76,6 +77,11 @@ def run(tier, seed, replay=None):
     distinct = set()
     samples = []
     setarch = shutil.which("setarch")
+    shim = os.path.join(work, "shuffle_malloc.so")
+    if subprocess.run(["gcc", "-O1", "-shared", "-fPIC", "-o", shim, os.path.join(common.VERIF, "tools/shim/shuffle_malloc.c")],
+                      capture_output=True).returncode != 0:
+        shim = None
+        rep.assumptions.append("the address-shuffling allocator shim could not be built; heap layout varied only through mmap thresholds")
     for name, prog, suite in progs:
         d = os.path.join(work, name)
         os.makedirs(d)
@@ -106,6 +112,11 @@ def run(tier, seed, replay=None):
                 ("locale", d, {"LANG": "tr_TR.UTF-8", "LC_ALL": "C.UTF-8", "TZ": "Pacific/Kiritimati"}, ())]
         if setarch:
             runs.append(("noaslr", d, None, (setarch, "x86_64", "-R")))
+        if shim:
+            # pseudo-random relative order of heap addresses (tools/shim/shuffle_malloc.c)
+            for j in range(3 if tier == "quick" else 8):
+                sj = rng.randrange(1, 1 << 30)
+                runs.append(("shuffle%d" % j, d, {"LD_PRELOAD": shim, "VERIF_SHUFFLE": str(sj)}, ()))
         results = {}
         for tag, cwd, envx, prefix in runs:
             p, o, e = go(tag, cwd, envx, prefix)
@@ -144,7 +155,7 @@ def run(tier, seed, replay=None):
     rep.coverage.update({
         "programs": len(progs), "evaluations": stats["runs"], "distinct_nontrivial": len(distinct),
         "traces_validated_against_impl": stats["runs"], "disagreements_checked": len(rep.violations),
-        "rule": "per program: 3 plain repetitions, MALLOC_PERTURB_, allocation through mmap (reversed address order), large environment, locale/TZ, ASLR off (setarch -R), another working directory, and 6-12 concurrent compilations in one directory; all must give the same (font sha256, diagnostics sha256, exit status); distinct = distinct (program, font hash)",
+        "rule": "per program: 3 plain repetitions, MALLOC_PERTURB_, allocation through mmap (reversed address order), 3-8 runs under an LD_PRELOAD allocator that hands out addresses in pseudo-random order, large environment, locale/TZ, ASLR off (setarch -R), another working directory, and 6-12 concurrent compilations in one directory; all must give the same (font sha256, diagnostics sha256, exit status); distinct = distinct (program, font hash)",
         "samples": samples, "exhaustive": False,
     })
     rep.assumptions += ["the interleavings of concurrent runs are whatever the scheduler produced (exploration, not proof)",
